@@ -263,29 +263,14 @@ theorem dropWhile_ext (p q : UInt8 → Bool) : ∀ l : Bytes, (∀ x ∈ l, p x 
     have ih := dropWhile_ext p q t (fun x hx => h x (by simp [hx]))
     simp only [List.dropWhile_cons, hc, ih]
 
-/-- without HTAB, stripping SP (hertz) is stripping optional whitespace (RFC 7230) -/
-theorem stripSpace_eq_trimOWS (e : Bytes) (h : ∀ c ∈ e, c ≠ 9) : stripSpace e = trimOWS e := by
-  have hpq : ∀ x : UInt8, x ≠ 9 → (x == 32) = (x == 32 || x == 9) := by
-    intro x hx
-    have : (x == 9) = false := by simpa using hx
-    simp [this]
-  unfold stripSpace trimOWS
-  rw [dropWhile_ext (· == 32) (fun c => c == 32 || c == 9) e (fun x hx => hpq x (h x hx))]
-  congr 1
-  apply dropWhile_ext
-  intro x hx
-  have hx' : x ∈ e := (List.dropWhile_sublist _).subset (List.mem_reverse.mp hx)
-  exact hpq x (h x hx')
+/-- stripping SP / HTAB (hertz since 117944e) is stripping optional whitespace (RFC 7230); before the repair hertz
+stripped SP only and this held for elements without HTAB -/
+theorem stripOWS_eq_trimOWS : stripOWS = trimOWS := rfl
 
-theorem strip_map_eq (l : List Bytes) (h : ∀ e ∈ l, ∀ c ∈ e, c ≠ 9) :
-    (l.map stripSpace).filter (fun e => !e.isEmpty) = (l.map trimOWS).filter (fun e => !e.isEmpty) := by
-  congr 1
-  exact List.map_congr_left (fun e he => stripSpace_eq_trimOWS e (h e he))
-
-/-- `Trailer.SetTrailers` on ANY value without HTAB = the RFC 7230 `#field-name` list rule (elements separated by
+/-- `Trailer.SetTrailers` on ANY value = the RFC 7230 `#field-name` list rule (elements separated by
 commas, optional whitespace around them stripped, empty elements ignored), then: names normalised, forbidden names
 dropped, and the declaration is refused exactly when its LAST element is forbidden. -/
-theorem setTrailers_list (dn : Bool) (v : Bytes) (hnt : ∀ c ∈ v, c ≠ 9) :
+theorem setTrailers_list (dn : Bool) (v : Bytes) :
     setTrailers dn v =
       (((listElems v).map (normalizeKey dn)).filter (fun k => !isBadTrailer k),
        match ((listElems v).map (normalizeKey dn)).getLast? with
@@ -305,7 +290,6 @@ theorem setTrailers_list (dn : Bool) (v : Bytes) (hnt : ∀ c ∈ v, c ≠ 9) :
           rw [hl] at this
           exact (Option.some.inj this).symm
         rw [h2] at h1; exact h1
-      have hnt' : ∀ c ∈ v.dropLast, c ≠ 9 := fun c hc => hnt c ((List.dropLast_sublist v).subset hc)
       have e1 : splitOn 44 v = splitOn 44 v.dropLast ++ [[]] := by
         conv => lhs; rw [← hsplit]
         exact splitOn_snoc 44 v.dropLast
@@ -313,19 +297,17 @@ theorem setTrailers_list (dn : Bool) (v : Bytes) (hnt : ∀ c ∈ v, c ≠ 9) :
       have e3 : ((splitOn 44 v).map trimOWS).filter (fun e => !e.isEmpty) =
           ((splitOn 44 v.dropLast).map trimOWS).filter (fun e => !e.isEmpty) := by
         rw [e1]; simp [trimOWS]
-      simp only [hl, if_true, e2, e3]
-      rw [strip_map_eq _ (fun e he c hc => hnt' c (splitOn_mem 44 _ e he c hc))]
+      simp only [hl, if_true, e2, e3, stripOWS_eq_trimOWS]
       rfl
-    · simp only [hl, if_false]
-      rw [strip_map_eq _ (fun e he c hc => hnt c (splitOn_mem 44 _ e he c hc))]
+    · simp only [hl, if_false, stripOWS_eq_trimOWS]
       rfl
 
 /-! ### the keep-alive loop on requests whose trailer section is ANY list of well-formed field lines -/
 
-/-- the raw names the last `Trailer` field announces -/
+/-- the raw names all `Trailer` fields announce, in order, behind `d` -/
 def pickTRaw : List (Bytes × Bytes) → List Bytes → List Bytes
   | [], d => d
-  | kv :: t, d => pickTRaw t (if cls kv.1 = .trailer then splitNames kv.2 else d)
+  | kv :: t, d => pickTRaw t (if cls kv.1 = .trailer then d ++ splitNames kv.2 else d)
 
 theorem pickTRaw_map (dn : Bool) : ∀ (fs : List (Bytes × Bytes)) (d : List Bytes),
     (pickTRaw fs d).map (normalizeKey dn) = pickT dn fs (d.map (normalizeKey dn))
